@@ -10,6 +10,11 @@ Spec: VarObjective.tla
               "noise" cells (FixedNoiseGaussianLikelihood x learn_additional_noise x minibatch index sequence x per-call noise= keyword) and
               "hist" cells (state machine over the history of the raw variational parameters of every variational distribution class:
               optimiser steps, dense raw tensors loaded through state_dict / assignment).
+  "tree":     the module tree below the objective x where added loss terms / priors are registered in it (0..3 registrations, equal and
+              different local names in different sub-modules, one object in several slots, None terms, a sub-module reachable along two
+              paths) x objective class -> stub trees decoded on the REAL objective classes (both values of combine_terms);
+              "comp" cells of the lattice: the same dimension on real components (0..3 VariationalLatentVariable blocks, which all register
+              "x_kl"; additive kernels whose parts carry priors under equal local names) against the closed-form definition.
 Round 2: the objective is compared with the dense definition evaluated at the q(u) that variational_distribution() REPORTS (not only with
 the model's own q(f) / KL); the rational instances carry a per-point noise vector (non-constant = FixedNoiseGaussianLikelihood) and every
 q(u) is also handed over through a dense (non-triangular) raw factor."""
@@ -50,13 +55,13 @@ def tla(v):
     raise TypeError(v)
 
 
-def write_mc(workdir, name, part, repairs=(), instances=(), invariants=(), properties=(), maxsteps=3):
+def write_mc(workdir, name, part, repairs=(), instances=(), invariants=(), properties=(), maxsteps=3, treelevel="quick"):
     os.makedirs(workdir, exist_ok=True)
     mod = "MC_VarObjective_" + name
     with open(os.path.join(workdir, mod + ".tla"), "w") as f:
         f.write("---- MODULE %s ----\nEXTENDS VarObjective\nInstDef == {%s}\n====\n" % (mod, ",\n  ".join(tla(i) for i in instances)))
     cfg = os.path.join(workdir, mod + ".cfg")
-    tlc.write_cfg(cfg, spec="Spec", constants={"Part": part, "Repairs": set(repairs), "Instances": "<- InstDef", "MaxSteps": maxsteps},
+    tlc.write_cfg(cfg, spec="Spec", constants={"Part": part, "Repairs": set(repairs), "Instances": "<- InstDef", "MaxSteps": maxsteps, "TreeLevel": treelevel},
                   invariants=list(invariants), properties=list(properties))
     return os.path.join(workdir, mod + ".tla"), cfg
 
@@ -253,6 +258,161 @@ def run_asm(torch, gpytorch, c):
             res.update(ok=False, sig=base + "/tuple/%s/rank%d" % (names[k], cf["rank"]),
                        detail="%s: %s term %r, definition %r%s" % (desc, names[k], gv, want_terms[k], "" if k < len(got) else " (term missing from the tuple)"))
             return res
+    return res
+
+
+# ---------------------------------------------------------------------------------------------
+# (a') the module tree below the objective: where added loss terms and priors are registered (part "tree" of VarObjective.tla)
+_TREE = []
+TREE_PARVAL = {"L": 1.0, "M": 3.0, "A": 5.0, "B": 7.0, "C": 11.0}      # VarObjective.tla ParVal
+TREE_SEED = 151515
+
+
+def _tree_classes(torch, gpytorch):
+    if _TREE:
+        return _TREE[0]
+    D = torch.float64
+
+    class Sub(gpytorch.Module):
+        """a sub-module of the model (a kernel, a latent-variable block, ...)"""
+
+    class TreeLoss(gpytorch.mlls.AddedLossTerm):
+        def __init__(self, j):
+            self.j = j
+
+        def loss(self):
+            return torch.tensor(7.0 * 10.0 ** (self.j + 2), dtype=D)        # VarObjective.tla TermV
+
+    class TreePrior(gpytorch.priors.NormalPrior):
+        def __init__(self, p):
+            super().__init__(0.0, 1.0)
+            self.p = p
+
+        def log_prob(self, x):
+            return x * 10.0 ** (self.p + 1)                                 # VarObjective.tla PriorV, element by element
+
+    _TREE.append((Sub, TreeLoss, TreePrior, {}))
+    return _TREE[0]
+
+
+def lay_desc(lay, what):
+    return ", ".join("%s.%s=%s" % (r["mod"], r["name"], ("None" if r["id"] == 0 else "%s%d" % (what, r["id"]))) for r in lay) or "none"
+
+
+def tree_desc(cf):
+    shape = {"plain": "M{a:A{c:C}, b:B}", "alias": "M{a:A{c:C}, b:B, a2:A} (A registered twice below M)", "diamond": "M{a:A{c:C}, b:B{c:C}} (C below A and below B)"}[cf["shape"]]
+    return "%s on the module tree objective{likelihood:L, model:%s}, minibatch 2 of num_data=10, beta=1/2; added loss terms [%s]; priors [%s]" % (
+        cf["obj"], shape, lay_desc(cf["al"], "term"), lay_desc(cf["pl"], "prior"))
+
+
+def build_tree(torch, gpytorch, cf):
+    """the real module tree of a "tree" configuration: (likelihood, model, {label: module})"""
+    D = torch.float64
+    Sub, TreeLoss, TreePrior, _ = _tree_classes(torch, gpytorch)
+    StubLik, StubModel, _ = _stub_classes(torch, gpytorch)
+    if cf["obj"] == "gamma":
+        lik = gpytorch.likelihoods.GaussianLikelihood().to(D)
+        lik.noise = 0.5
+    else:
+        lik = StubLik()
+    mods = dict(L=lik, M=StubModel([], 0), A=Sub(), B=Sub(), C=Sub())
+    mods["M"].a = mods["A"]
+    mods["M"].b = mods["B"]
+    if cf["shape"] == "alias":
+        mods["M"].a2 = mods["A"]
+    mods["A"].c = mods["C"]
+    if cf["shape"] == "diamond":
+        mods["B"].c = mods["C"]
+    terms = {j: TreeLoss(j) for j in (1, 2, 3)}
+    priors = {p: TreePrior(p) for p in (1, 2, 3)}
+    for r in cf["al"]:
+        if r["mod"] == "L":
+            raise core.Machinery("added loss terms are registered below the model only")
+        mods[r["mod"]].register_added_loss_term(r["name"])
+        if r["id"]:
+            mods[r["mod"]].update_added_loss_term(r["name"], terms[r["id"]])
+    for r in cf["pl"]:
+        mod, par = mods[r["mod"]], r["name"] + "_par"
+        mod.register_parameter(par, torch.nn.Parameter(torch.full((1 if r["name"] == "x" else 2,), TREE_PARVAL[r["mod"]], dtype=D)))
+        mod.register_prior(r["name"] + "_prior", priors[r["id"]], par)
+    return lik, mods["M"], mods
+
+
+def run_tree(torch, gpytorch, c):
+    cf, exp = c["cf"], c["exp"]
+    D = torch.float64
+    cache = _tree_classes(torch, gpytorch)[3]
+    desc = tree_desc(cf)
+    B, N, beta = 2, 10, 0.5
+    res = dict(key=["tree", cf], ok=True, nontrivial=bool(cf["al"] or cf["pl"]), case=c, n=0)
+    base = "C15/tree/%s" % cf["obj"]
+    g = torch.Generator().manual_seed(TREE_SEED)
+    mean = torch.randn(B, generator=g, dtype=D)
+    var = 0.3 + torch.rand(B, generator=g, dtype=D)
+    dist = gpytorch.distributions.MultivariateNormal(mean, torch.diag(var))
+    y = torch.randn(B, generator=g, dtype=D)
+    coef = {k: fr(v) for k, v in exp["coef"].items()}
+    if coef["lik"] != Fraction(1, B) or coef["kl"] != Fraction(1, 2 * N) or coef["prior"] != Fraction(1, N):
+        return dict(machinery="the fixed cell of the tree part is not B=2, N=10, beta=1/2: %s" % coef)
+    lik, model, _ = build_tree(torch, gpytorch, cf)
+    if cf["obj"] == "gamma":
+        # the per-point terms, measured once per process on one-point batches of the same class without any registration
+        if "gamma" not in cache:
+            _, StubModel, _ = _stub_classes(torch, gpytorch)
+            pts = []
+            for i in range(B):
+                di = gpytorch.distributions.MultivariateNormal(mean[i:i + 1], torch.diag(var[i:i + 1]))
+                ok, t = core.guarded(lambda: gpytorch.mlls.GammaRobustVariationalELBO(gpytorch.likelihoods.GaussianLikelihood().to(D).initialize(noise=0.5), StubModel([], 0), num_data=1, beta=1.0, combine_terms=False)(di, y[i:i + 1]))
+                if not ok:
+                    res.update(ok=False, sig=base + "/raises", detail="%s: one-point objective raises %s" % (desc, t))
+                    return res
+                pts.append(float(t[0]))
+            cache["gamma"] = sum(pts) / B
+        want_lik = cache["gamma"]
+        cls = gpytorch.mlls.GammaRobustVariationalELBO
+        tol = lambda w: 1e-10 * max(1.0, abs(w))   # noqa
+    else:
+        want_lik = rat(exp["terms"][0])
+        cls = gpytorch.mlls.VariationalELBO if cf["obj"] == "elbo" else gpytorch.mlls.PredictiveLogLikelihood
+        tol = lambda w: 1e-12 * max(1.0, abs(w))   # noqa
+    want_terms = [want_lik, rat(exp["terms"][1]), rat(exp["terms"][2]), rat(exp["terms"][3])]
+    want_val = want_terms[0] - want_terms[1] + want_terms[2] - want_terms[3]
+    if cf["obj"] != "gamma" and abs(want_val - rat(exp["val"])) > 1e-9 * max(1.0, abs(want_val)):
+        return dict(machinery="TLC's value and TLC's terms disagree on %s" % desc)
+    res["sample"] = dict(configuration=desc, expected_terms=want_terms, expected_value=want_val)
+    names = ("likelihood", "kl", "prior", "added")
+
+    def seen():
+        ok, v = core.guarded(lambda: ([nm for nm, _ in model.named_added_loss_terms()], [t[0] for t in cls(lik, model, num_data=N).named_priors()]))
+        return "named_added_loss_terms() = %s, named_priors() = %s" % (v[0], v[1]) if ok else "the generators raise %s" % v
+    # combine_terms=False: the tuple lists the definition's terms
+    ok, got = core.guarded(lambda: cls(lik, model, num_data=N, beta=beta, combine_terms=False)(dist, y))
+    res["n"] += 1
+    if not ok:
+        res.update(ok=False, sig=base + "/raises", detail="%s: combine_terms=False raises %s" % (desc, got))
+        return res
+    if not isinstance(got, tuple) or len(got) not in (3, 4):
+        res.update(ok=False, sig=base + "/tuple/shape", detail="%s: expected a tuple of 3 or 4 terms, got %r" % (desc, got))
+        return res
+    for k in range(4):
+        gv = float(got[k]) if k < len(got) else 0.0
+        if not abs(gv - want_terms[k]) <= tol(want_terms[k]):
+            res.update(ok=False, sig=base + "/tuple/%s" % names[k],
+                       detail="%s: %s term %r%s, definition %r (every added loss term OBJECT below the model once; every prior registration (module, local name) below the "
+                              "objective once, 1/N of the log density of its own parameter); %s" % (desc, names[k], gv, "" if k < len(got) else " (term missing from the tuple)", want_terms[k], seen()))
+            return res
+    # combine_terms=True
+    ok, got = core.guarded(lambda: cls(lik, model, num_data=N, beta=beta, combine_terms=True)(dist, y))
+    res["n"] += 1
+    if not ok:
+        res.update(ok=False, sig=base + "/raises", detail="%s: combine_terms=True raises %s" % (desc, got))
+        return res
+    if isinstance(got, tuple) or got.numel() != 1:
+        res.update(ok=False, sig=base + "/combined/shape", detail="%s: expected one value, got %r" % (desc, got))
+        return res
+    if not abs(float(got) - want_val) <= tol(want_val):
+        res.update(ok=False, sig=base + "/combined/value", detail="%s: objective %r, definition %r = lik %r - kl %r + prior %r - added %r (difference %.6g); %s" % (
+            desc, float(got), want_val, *want_terms, float(got) - want_val, seen()))
     return res
 
 
@@ -1276,7 +1436,174 @@ def run_noise(torch, gpytorch, c):
     return res
 
 
-RUNNERS = {"asm": run_asm, "rat": run_rat, "ngdrat": run_ngdrat, "cell": run_cell, "hist": run_hist, "noise": run_noise}
+# ---------------------------------------------------------------------------------------------
+# (L5) the registration dimension on real components ("comp" cells of VarObjective.tla)
+BLOCK_PRIORS = ((0.0, 1.0), (0.5, 2.0), (-0.3, 0.7))        # (loc, scale) of the prior of latent block k: pairwise different
+
+
+def run_comp(torch, gpytorch, c):
+    cell, seed, exp = c["cell"], c["seed"], c["expect"]
+    D = torch.float64
+    strat, nb, reuse, kern, psites = cell["strat"], cell["blocks"], cell["reuse"], cell["kern"], cell["priors"]
+    ksum = kern != "single"
+    sites = {"none": (), "model": ("model",), "likelihood": ("likelihood",), "both": ("model", "likelihood")}[psites]
+    res = dict(key=["comp", cell, seed], ok=True, nontrivial=True, case=c, n=0)
+    base = "C15/comp/%s" % strat
+    g = torch.Generator().manual_seed(seed)
+    u = lambda lo, hi, *sh: lo + (hi - lo) * torch.rand(*sh, generator=g, dtype=D)   # noqa
+    n = 8 + int(torch.randint(0, 5, (1,), generator=g))
+    m = 3 + int(torch.randint(0, 3, (1,), generator=g))
+    d = max(2, nb)
+    K = gpytorch.kernels
+    wp = "model" in sites
+
+    shared_ls = _prior(gpytorch, "lengthscale")            # kern = "sum_shared": one prior object for both lengthscales
+
+    def part(kind):
+        kw = dict(lengthscale_prior=shared_ls if kern == "sum_shared" else _prior(gpytorch, "lengthscale")) if wp else {}
+        bk = K.RBFKernel(ard_num_dims=d, **kw) if kind == "rbf" else K.MaternKernel(nu=1.5, **kw)
+        k = K.ScaleKernel(bk, **(dict(outputscale_prior=_prior(gpytorch, "outputscale")) if wp else {})).to(D)
+        k.base_kernel.lengthscale = u(0.5, 1.2, 1, d) if kind == "rbf" else u(0.6, 1.4, 1, 1)
+        k.outputscale = u(0.5, 1.4, 1)[0]
+        return k
+    parts = [part("rbf")] + ([part("matern")] if ksum else [])
+    kernel = parts[0] + parts[1] if ksum else parts[0]
+    mean = gpytorch.means.ConstantMean(**(dict(constant_prior=_prior(gpytorch, "constant")) if wp else {})).to(D)
+    mean.constant = float(torch.randn(1, generator=g, dtype=D) * 0.5)
+    lik = gpytorch.likelihoods.GaussianLikelihood(**(dict(noise_prior=_prior(gpytorch, "noise")) if "likelihood" in sites else {})).to(D)
+    lik.noise = float(u(0.1, 0.4, 1))
+    with torch.no_grad():
+        for attempt in range(30):
+            Z = torch.randn(m, d, generator=g, dtype=D)
+            if float(torch.linalg.cond(kernel(Z).to_dense())) <= 1e4:
+                break
+        else:
+            res.update(nontrivial=False, skipped=True)
+            return res
+    LV = gpytorch.models.gplvm.latent_variable.VariationalLatentVariable
+    dims = [d] if nb == 1 else [1] * nb
+    blocks = []
+    for k, dk in enumerate(dims):
+        loc, scale = BLOCK_PRIORS[k]
+        b = LV(n, 1, dk, torch.randn(n, dk, generator=g, dtype=D), gpytorch.priors.NormalPrior(torch.full((n, dk), loc, dtype=D), torch.full((n, dk), scale, dtype=D)))
+        b.q_log_sigma = torch.nn.Parameter(torch.randn(n, dk, generator=g, dtype=D) * 0.5)          # the constructor draws it from the global generator
+        blocks.append(b)
+    Xfix = torch.randn(n, d, generator=g, dtype=D)
+    y = torch.sin(2 * Xfix[:, 0]) + 0.5 * Xfix[:, 1] + 0.3 * torch.randn(n, generator=g, dtype=D)
+
+    class Holder(gpytorch.Module):
+        """a second parent of the first block (the same object is reachable along two paths)"""
+
+    class LatentSVGP(gpytorch.models.ApproximateGP):
+        def __init__(s_):
+            V = gpytorch.variational
+            scls = V.VariationalStrategy if strat == "whitened" else V.UnwhitenedVariationalStrategy
+            super().__init__(scls(s_, Z, V.CholeskyVariationalDistribution(m), learn_inducing_locations=False))
+            s_.mean_module = mean
+            s_.covar_module = kernel
+            if reuse and seed % 2:          # the second parent comes first / last in the traversal
+                s_.aux = Holder()
+                s_.aux.block = blocks[0]
+            for k, b in enumerate(blocks):
+                setattr(s_, "block%d" % k, b)
+            if reuse and not seed % 2:
+                s_.aux = Holder()
+                s_.aux.block = blocks[0]
+
+        def inputs(s_):
+            return torch.cat([b() for b in blocks], dim=-1) if blocks else Xfix
+
+        def forward(s_, x):
+            return gpytorch.distributions.MultivariateNormal(s_.mean_module(x), s_.covar_module(x))
+    model = LatentSVGP().to(D)
+    desc = "SVGP %s strategy, kernel %s, constant mean, priors on %s, GP input = %s%s, seed=%d n=%d m=%d" % (
+        strat, ("ScaleKernel(RBF) + ScaleKernel(Matern)" + (" with one lengthscale prior object for both" if kern == "sum_shared" and wp else "")) if ksum else "ScaleKernel(RBF)", "/".join(sites) or "nothing",
+        ("%d VariationalLatentVariable block(s) of dimension %s (each registers 'x_kl')" % (nb, dims)) if nb else "fixed data",
+        (", block 0 also attached below a second parent module" if reuse else "") + (", latent inputs sampled twice" if cell["resample"] else ""), seed, n, m)
+    model.train()
+    lik.train()
+    torch.manual_seed(seed)             # the blocks sample with the global generator
+    if cell["resample"]:
+        core.guarded(lambda: model.inputs())             # an earlier sample: its terms are replaced by the next one
+    ok, x = core.guarded(lambda: model.inputs())         # one reparametrised sample of the latent inputs; refreshes every block's KL term
+    if not ok:
+        res.update(ok=False, sig=base + "/raises", detail="%s: sampling the latent inputs raises %s" % (desc, x))
+        return res
+    ok, err = core.guarded(lambda: model(x))             # first call: the strategy initialises q(u) from its prior
+    if not ok:
+        res.update(ok=False, sig=base + "/raises", detail="%s: first call raises %s" % (desc, err))
+        return res
+    jit = float(model.variational_strategy.jitter_val)
+    P = prior_blocks(torch, model, x.detach(), jit)
+    m0, S0 = q_family(torch, "random", P, None, g)
+    set_q(torch, model, strat, "cholesky", P, m0, S0)
+    # ---- the definition's extra terms
+    import torch.distributions as td
+    with torch.no_grad():
+        added = 0.0
+        for k, b in enumerate(blocks):               # closed-form KL between the diagonal Gaussians q(x) and p(x), per data point (data_dim = 1)
+            loc, scale = BLOCK_PRIORS[k]
+            qm, qs = b.q_mu, torch.nn.functional.softplus(b.q_log_sigma)
+            added += float((math.log(scale) - torch.log(qs) + (qs ** 2 + (qm - loc) ** 2) / (2 * scale ** 2) - 0.5).sum()) / n
+        vals = []
+        if wp:
+            for kp in parts:
+                vals += [("lengthscale", kp.base_kernel.lengthscale), ("outputscale", kp.outputscale)]
+            vals.append(("constant", mean.constant))
+        if "likelihood" in sites:
+            vals.append(("noise", lik.noise))
+        lp = 0.0
+        for name, v in vals:
+            fam, a, b_ = PRIOR_SPECS[name]
+            dd = td.Gamma(torch.tensor(a, dtype=D), torch.tensor(b_, dtype=D)) if fam == "gamma" else td.Normal(torch.tensor(a, dtype=D), torch.tensor(b_, dtype=D))
+            lp += float(dd.log_prob(v.detach()).sum())
+    if len(vals) != exp["npriors"] or nb != exp["nadded"]:
+        return dict(machinery="comp cell %s: the replay registers %d priors / %d blocks, the spec lists %d / %d" % (cell, len(vals), nb, exp["npriors"], exp["nadded"]))
+    s2 = float(lik.noise)
+    rint = random.Random(seed)
+    full = list(range(n))
+    batches = [(full, n, 1.0), (sorted(rint.sample(full, max(2, n // 2))), 2 * n, 0.5)]
+    for (idx, N, beta) in batches:
+        Xb, yb = x[idx], y[idx]
+        for cls, name in ((gpytorch.mlls.VariationalELBO, "elbo"), (gpytorch.mlls.PredictiveLogLikelihood, "pll")):
+            for combine in (False, True):
+                okk, got = core.guarded(lambda: objective(torch, gpytorch, cls, model, lik, Xb, yb, N, beta, combine_terms=combine))
+                if not okk:
+                    res.update(ok=False, sig=base + "/%s/raises" % name, detail="%s minibatch %s N=%d beta=%s combine_terms=%s: %s" % (desc, idx, N, beta, combine, got))
+                    return res
+                val, mu, var, kl = got
+                if name == "elbo":
+                    per = -0.5 * math.log(2 * math.pi * s2) - ((yb - mu) ** 2 + var) / (2 * s2)
+                else:
+                    per = -0.5 * torch.log(2 * math.pi * (var + s2)) - (yb - mu) ** 2 / (2 * (var + s2))
+                terms = [float(per.sum()) / len(idx), beta / N * float(kl), lp / N, added]
+                want = terms[0] - terms[1] + terms[2] - terms[3]
+                res["n"] += 1
+                where = "%s: minibatch %s of %d points, num_data=%d, beta=%s, %s(combine_terms=%s)" % (desc, idx, n, N, beta, cls.__name__, combine)
+                if not combine:
+                    if not isinstance(val, tuple) or len(val) not in (3, 4):
+                        res.update(ok=False, sig=base + "/%s/tuple/shape" % name, detail="%s: expected a tuple of 3 or 4 terms, got %r" % (where, val))
+                        return res
+                    for k, tn in enumerate(("likelihood", "kl", "prior", "added")):
+                        gv = float(val[k]) if k < len(val) else 0.0
+                        okv, why = core.close(gv, terms[k], 1e-9, 1e-11)
+                        if not okv:
+                            res.update(ok=False, sig=base + "/%s/%s-term" % (name, tn),
+                                       detail="%s: %s term %r%s but the definition gives %r (%d latent block(s) with closed-form KL sum %r per point, %d registered priors with total log density %r, "
+                                              "the model's own q(f) and KL = %r): %s; named_added_loss_terms() = %s" % (
+                                           where, tn, gv, "" if k < len(val) else " (missing from the tuple)", terms[k], nb, added, len(vals), lp, float(kl), why, [nm for nm, _ in model.named_added_loss_terms()]))
+                            return res
+                    continue
+                okv, why = core.close(float(val), want, 1e-9, 1e-11)
+                if not okv:
+                    res.update(ok=False, sig=base + "/%s/definition" % name,
+                               detail="%s = %r but (1/B) sum_i term_i - (beta/N) KL + (1/N) log priors - added losses = %r - %r + %r - %r = %r: %s" % (where, float(val), *terms, want, why))
+                    return res
+    res["sample"] = dict(case=desc, added_losses=added, registered_priors=len(vals), log_prior_total=lp)
+    return res
+
+
+RUNNERS = {"tree": run_tree, "comp": run_comp, "asm": run_asm, "rat": run_rat, "ngdrat": run_ngdrat, "cell": run_cell, "hist": run_hist, "noise": run_noise}
 
 
 def _worker(cases):
@@ -1295,7 +1622,7 @@ def _worker(cases):
             if fr is None:
                 raise
             # the implementation raised outside a guarded call (e.g. while its variational distribution was read back)
-            area = {"asm": "assembly", "rat": "rational", "ngdrat": "ngd-rational", "cell": "svgp", "hist": "hist", "noise": "noise"}[c["kind"]]
+            area = {"tree": "tree", "comp": "comp", "asm": "assembly", "rat": "rational", "ngdrat": "ngd-rational", "cell": "svgp", "hist": "hist", "noise": "noise"}[c["kind"]]
             r = dict(key=["raised", c["kind"], core.digest(c)], ok=False, nontrivial=True, case=c, sig="C15/%s/raises/%s" % (area, type(e).__name__),
                      detail="the library raised %s: %s (at %s line %d) on %s" % (type(e).__name__, str(e)[:300], fr.filename, fr.lineno, str({k: v for k, v in c.items() if k not in ("exp", "out")})[:400]))
         r["t"] = (c["kind"], time.time() - t0)
@@ -1309,15 +1636,24 @@ def run(ck):
     core.setup_torch()
     rnd = random.Random(ck.seed)
     ck.rule = ("assembly: every configuration (objective x B x declared N x beta x combine_terms x priors x prior site (model / likelihood / split) x added losses x event rank) decoded on the real "
-               "classes against TLC's exact rational value; rational: TLC's exact ELBO pieces / NGD histories on integer instances through real SVGP models; "
+               "classes against TLC's exact rational value; module tree: every configuration (objective x tree shape (plain / a sub-module registered twice below one parent / below two parents) x "
+               "layout of 0..3 added-loss or prior registrations over (module, local name) slots: equal and different local names, one object in several slots, None terms) built from real "
+               "gpytorch Modules, both values of combine_terms against TLC's exact terms; component cells: SVGP x 0..3 VariationalLatentVariable blocks (x one block below two parents) x "
+               "single / additive kernel (x one prior object on two parameters) x prior sites, VariationalELBO and PredictiveLogLikelihood term by term against the closed form; rational: TLC's exact ELBO pieces / NGD histories on integer instances through real SVGP models; "
                "svgp/ngd cells: seeded models per lattice cell against the definition, the exact marginal, collapsed - KL(q || q_opt) and the optimal q(u); "
                "noise cells: FixedNoiseGaussianLikelihood (x learn_additional_noise) x minibatch index sequence (B < N, B = N stored / permuted / resampled, B > N) x noise= keyword "
                "(none / gathered / fresh) x objective against the definition with the spec's per-point noise; hist cells: histories of the raw variational parameters "
                "(optimiser steps, dense tensors through load_state_dict / assignment) of every variational distribution class, every state against the dense definition at the "
                "REPORTED q(u), the exact marginal and collapsed - KL(q || q_opt). "
-               "non-trivial = a scale factor differs from one or a keyword is forwarded (assembly), q(u) differs from the prior (rational), history of >= 2 actions (ngd), "
+               "non-trivial = a scale factor differs from one or a keyword is forwarded (assembly), at least one registration (module tree), every component cell, q(u) differs from the prior (rational), history of >= 2 actions (ngd), "
                "every seeded / noise cell, every history with >= 1 action")
     ck.assumptions = [
+        "added losses = the added loss term OBJECTS registered anywhere in the module tree of the MODEL handed to the objective (a term object reachable under several names / along "
+        "several paths is one term; a name registered with register_added_loss_term but never updated contributes nothing); terms registered on the likelihood are not decided. "
+        "log priors = one summand per prior REGISTRATION (module object, local name) in the module tree of the objective (likelihood and model), evaluated on that registration's own "
+        "parameter: one prior object registered for two parameters counts for both, a module reachable along two paths counts once (VarObjective.tla part 'tree')",
+        "component cells: the added loss of a VariationalLatentVariable block is KL(q(x) || p(x)) / n (data_dim = 1) between diagonal Gaussians in closed form; the likelihood and KL(q(u) || p(u)) "
+        "terms are taken from the model's own q(f) and kl_divergence() (they are decided by the other sections)",
         "the tuple returned with combine_terms=False lists the definition's terms (likelihood, KL, prior[, added]); a missing fourth component means 'no added loss'",
         "GammaRobustVariationalELBO: only the shared assembly (1/B over its per-point terms, beta/N, 1/N, added losses) is decided; its per-point terms are measured "
         "on one-point batches of the same class, its closed form is not compared with the gamma-divergence of the paper",
@@ -1367,7 +1703,9 @@ def run(ck):
     if not all_repaired:        # otherwise the run above IS the repaired model with AssemblyOK over the whole lattice
         job("asm_repaired", "assembly (repaired model, whole lattice)", "assembly", False, repairs=ALL_REPAIRS, invariants=["AssemblyOK"])
     nfix = len(jobs)
-    job("lattice", "float64 lattice, noise cells, history machine", "lattice", True, invariants=["LatticeOK", "NoiseOK", "HistOK"], properties=["GenericSticky"], maxsteps=hist_depth)
+    job("lattice", "float64 lattice, noise cells, history machine, component cells", "lattice", True, invariants=["LatticeOK", "NoiseOK", "HistOK", "CompOK"], properties=["GenericSticky"], maxsteps=hist_depth)
+    job("tree", "module tree x registration layouts of added loss terms and priors (%s)" % ("every layout" if thorough else "quick level"), "tree", True, repairs=REPAIRS_IN_TREE,
+        invariants=["TreeOK", "SharingNeutral", "AltSane"], treelevel="full" if thorough else "quick")
     for p in range(parts):
         job("bound_%d" % p, "rational bound algebra %d" % p, "bound", True, instances=binst[p::parts], invariants=["BoundOK"])
     for p in range(parts):
@@ -1380,9 +1718,9 @@ def run(ck):
             ck.model_drift("VarObjective.tla %s violates %s: %s" % (lab, r.violation["name"], str(r.violation["trace"][:1])[:300]))
         elif r.rc != 0 or "Error:" in r.stdout:
             raise tlc.TLCError("TLC failed on VarObjective %s:\n%s" % (lab, r.stdout[-1500:]))
-    r_asm, r_rep, r_lat = rs[0], rs[nfix - 1], rs[nfix]
-    r_bound, r_ngd = rs[nfix + 1:nfix + 1 + parts], rs[nfix + 1 + parts:]
-    if any(r.violation for r in [r_rep, r_lat] + r_bound + r_ngd):
+    r_asm, r_rep, r_lat, r_tree = rs[0], rs[nfix - 1], rs[nfix], rs[nfix + 1]
+    r_bound, r_ngd = rs[nfix + 2:nfix + 2 + parts], rs[nfix + 2 + parts:]
+    if any(r.violation for r in [r_rep, r_lat, r_tree] + r_bound + r_ngd):
         raise tlc.TLCError("a TLC invariant of VarObjective.tla that does not depend on the modelled code version is violated: %s" % [
             (lab, r.violation["name"]) for lab, r in zip(labels, rs) if r.violation])
     ck.exhaustive = True
@@ -1400,6 +1738,29 @@ def run(ck):
     if nasm == 0:
         ck.vacuous("no assembly configurations generated")
     ck.section("assembly", configurations=nasm, predicted_to_fail_by_model=npred)
+    # ---- module tree x registration layouts
+    ntree, fams, rejected, regs, shapes = 0, {}, {}, set(), set()
+    if not r_tree.violation:
+        for st in r_tree.states():
+            cf, out = plain(st["c"]), plain(st["out"])
+            if not out["agree"]:
+                raise core.Machinery("tree configuration with a false clause passed the invariant: %s" % cf)
+            for k, v in out["alt"].items():
+                rejected[k] = rejected.get(k, 0) + (0 if v else 1)
+            fams[cf["fam"]] = fams.get(cf["fam"], 0) + 1
+            regs.add((out["nterms"], out["npriors"]))
+            shapes.add(cf["shape"])
+            cases.append(dict(kind="tree", cf=cf, exp=dict(val=out["val"], terms=out["terms"], coef=out["coef"])))
+            ntree += 1
+        if ntree == 0:
+            ck.vacuous("no tree configurations generated")
+        # the lattice must tell generators with a coarser / finer / no memo from the definition (otherwise the new dimension is not in it)
+        for k, v in sorted(rejected.items()):
+            if v == 0:
+                ck.vacuous("tree lattice: a generator with memo key '%s' gives the definition on every configuration" % k)
+        if not {(0, 0), (1, 0), (2, 0), (3, 0), (0, 1), (0, 2), (0, 3)} <= regs or shapes != {"plain", "alias", "diamond"}:
+            ck.vacuous("tree lattice: numbers of (term objects, prior registrations) %s / shapes %s" % (sorted(regs), sorted(shapes)))
+    ck.section("module_tree", configurations=ntree, families=fams, level="full" if thorough else "quick", cells_on_which_another_memo_key_is_wrong=rejected)
     # ---- rational bound instances
     known = {inst_key(i): i for i in binst}
     nrat = 0
@@ -1466,7 +1827,7 @@ def run(ck):
         ck.vacuous("NGD machine: labels %s / actions %s reached" % (sorted(labs), sorted(acts)))
     ck.section("ngd_machine", instances=len(ginst), maximal_histories=nhist, labels=sorted(labs))
     # ---- float64 lattice
-    ncell = nnoise = nnoise_undef = 0
+    ncell = nnoise = nnoise_undef = ncomp = 0
     nseeds = 10 if thorough else 1
     htable = {}
     lat_states = sorted(r_lat.states(), key=lambda st: repr((plain(st["c"]), list(st["hist"]))))      # a run-independent order
@@ -1474,6 +1835,11 @@ def run(ck):
         cell = plain(st["c"])
         if cell["sec"] == "hist":
             htable[(repr(sorted(cell.items())), tuple(st["hist"]))] = (cell, plain(st["out"]))
+            continue
+        if cell["sec"] == "comp":
+            ncomp += 1
+            for k in range(3 if thorough else 1):
+                cases.append(dict(kind="comp", cell=cell, expect=plain(st["out"]), seed=(ck.seed * 6247 + ncomp * 53 + k * 7) % (2 ** 31)))
             continue
         if cell["sec"] == "noise":
             o = plain(st["out"])
@@ -1505,6 +1871,9 @@ def run(ck):
     if nnoise_cases == 0:
         ck.vacuous("no noise cells generated")
     ck.section("noise_cells", defined=nnoise, not_defined=nnoise_undef, replayed=nnoise_cases)
+    if ncomp == 0:
+        ck.vacuous("no component cells generated")
+    ck.section("component_cells", cells=ncomp, seeds_per_cell=3 if thorough else 1)
     # ---- history machine: replay maximal histories, verify every state on the way
     nh_all = nh = 0
     hacts, hpos = set(), set()
@@ -1540,6 +1909,15 @@ def run(ck):
             tk[k] = [tk.get(k, [0, 0.0])[0] + 1, round(tk.get(k, [0, 0.0])[1] + t, 2)]
     ck.extra["replay_cpu_seconds_by_kind"] = {k: dict(cases=v[0], cpu_s=v[1]) for k, v in sorted(tk.items())}
     skipped = sum(1 for r in results if r.get("skipped"))
+    comps = [r for r in results if r.get("key", [None])[0] == "comp"]
+    comp_ok = [r for r in comps if r.get("ok", True) and not r.get("skipped")]
+    if comps and all(r.get("ok", True) for r in comps):
+        if len(comp_ok) < 0.8 * len(comps):
+            ck.vacuous("only %d of %d component cell instances were well conditioned" % (len(comp_ok), len(comps)))
+        if not any(r["case"]["cell"]["blocks"] >= 2 and abs(r["sample"]["added_losses"]) > 1e-3 for r in comp_ok):
+            ck.vacuous("no component cell subtracts the added losses of several latent blocks")
+        if not any(r["case"]["cell"]["kern"] == "sum_shared" and r["sample"]["registered_priors"] >= 5 for r in comp_ok):
+            ck.vacuous("no component cell registers one prior object for two parameters")
     hres = [r for r in results if r.get("key", [None])[0] == "hist" and r.get("ok", True) and not r.get("skipped")]
     if not any(not r.get("ok", True) for r in results if r.get("key", [None])[0] in ("hist", "raised")):
         for d in ("cholesky", "natural", "tril", "meanfield"):
